@@ -166,15 +166,20 @@ impl<'a> ProjectIter<'a> {
             return Some(self.project_value());
         };
 
-        self.to[axis] += 1;
-        if self.to[axis] <= self.project_to[axis] {
-            self.index += 1;
-            Some(self.project_value())
-        } else if axis > 0 {
-            self.to[axis] = 0;
-            self.impl_next_rec(axis - 1)
-        } else {
-            None
+        // Carry like an odometer, from the last axis towards the first; a loop rather than
+        // recursion, since the depth would otherwise be the number of dimensions
+        let mut axis = axis;
+        loop {
+            self.to[axis] += 1;
+            if self.to[axis] <= self.project_to[axis] {
+                self.index += 1;
+                return Some(self.project_value());
+            } else if axis > 0 {
+                self.to[axis] = 0;
+                axis -= 1;
+            } else {
+                return None;
+            }
         }
     }
 
